@@ -21,7 +21,16 @@ parameter lists are not "declared by the program" and are exempt from (decl) onl
 
 The module also drives the real code: generate(lang, seed, switches) on the real generator with the configuration
 object set directly, and cli(...) which re-imports src.args with a command line to check that the four
-command-line switches reach the generator.
+command-line switches reach the generator (the configuration object afterwards, and the programs generated under it).
+
+Determinism: the global RNG is seeded before src.utils is imported (word pool), src.ir.node.Node gets a
+counter-based __hash__ before any node exists (identity __eq__ untouched), and every generation starts from the same
+word pool / counter / RNG state, so (language, seed, switches) identifies the program whatever was generated before
+(run with PYTHONHASHSEED=0).  A generation is abandoned -- counted, not judged -- after a fixed number of deep-copied
+objects (a deterministic measure of the generator's work), so the evaluated set does not depend on machine load;
+only the wall-clock deadline of a tier can cut a run short, and then the number of generations not run is reported.
+
+    python3-vt specs/switch_ref.py quick|thorough [VERIF_SEED]      prints the result of run() as JSON
 """
 import importlib
 import itertools
@@ -39,7 +48,7 @@ FLAGS = {'usv': '--disable-use-site-variance', 'usc': '--disable-contravariance-
          'btp': '--disable-bounded-type-parameters', 'pf': '--disable-parameterized-functions'}
 COMBOS = [dict(zip(SWITCHES, bits)) for bits in itertools.product((False, True), repeat=4)]
 IMPORT_SEED = 20240917       # seeds the global RNG before src.utils samples its word pool
-BASE_SEEDS = list(range(1, 41))
+BASE_SEEDS = list(range(1, 25))
 
 
 def combo_key(c):
@@ -403,32 +412,46 @@ def nontrivial(stats, combo):
 # ----------------------------------------------------------------------------------------------------------------
 
 class Abandon(BaseException):
-    """raised by the CPU-time budget of one generation (BaseException: no handler of /repo may swallow it)"""
+    """raised by the work budget of one generation (BaseException: no handler of /repo may swallow it)"""
 
 
 def _alarm(signum, frame):
-    raise Abandon()
+    raise Abandon('cpu')
 
 
-def eval_one(e, lang, seed, combo, via_cli=False, cpu_budget=None):
+def eval_one(e, lang, seed, combo, via_cli=False, budget=None):
     """generate one program with the real generator and evaluate the six clauses on it
-    -> dict(violations, stats, error).  cpu_budget: seconds of CPU time after which the generation is abandoned"""
+    -> dict(violations, stats, error, work).
+    budget = (objects, cpu seconds): the generation is abandoned after that many objects were deep-copied (the
+    generator's cost is dominated by deepcopy of type constructors; the count is deterministic, so the same
+    generations are abandoned on every run) or, as a safety net only, after that much CPU time"""
+    import copy
     import signal
+    max_work, cpu = budget or (None, None)
     armed = False
-    if cpu_budget:
+    work = [0]
+    orig = copy._reconstruct
+
+    def counted(*a, **k):
+        work[0] += 1
+        if max_work and work[0] > max_work:
+            raise Abandon('work')
+        return orig(*a, **k)
+    if cpu:
         try:
             signal.signal(signal.SIGVTALRM, _alarm)
-            signal.setitimer(signal.ITIMER_VIRTUAL, cpu_budget)
+            signal.setitimer(signal.ITIMER_VIRTUAL, cpu)
             armed = True
-        except ValueError:      # not in the main thread: no budget
+        except ValueError:      # not in the main thread: no timer
             armed = False
+    copy._reconstruct = counted
     try:
         try:
             if via_cli:
                 mod, err = cli(e, combo, lang)
                 if err:
                     return dict(violations=[dict(kind='cli:command-line-rejected', path='', type='', detail=err,
-                                                 origin=None)], stats=None, error=None)
+                                                 origin=None)], stats=None, error=None, work=work[0])
                 vio = cli_cfg_violations(e, combo)
                 _prepare(e, lang, seed)
                 prog = e.generator.Generator(language=lang).generate()
@@ -436,16 +459,19 @@ def eval_one(e, lang, seed, combo, via_cli=False, cpu_budget=None):
                 vio = []
                 prog = generate(e, lang, seed, combo)
         finally:
+            copy._reconstruct = orig
             if armed:
                 signal.setitimer(signal.ITIMER_VIRTUAL, 0)
-    except Abandon:
-        return dict(violations=[], stats=None, error='abandoned (cpu budget %ss)' % cpu_budget)
+    except Abandon as ex:
+        return dict(violations=[], stats=None, work=work[0],
+                    error='abandoned (%s)' % ('more than %d objects copied' % max_work if ex.args == ('work',)
+                                              else 'cpu safety net %ss' % cpu))
     except RecursionError:
-        return dict(violations=[], stats=None, error='RecursionError')
+        return dict(violations=[], stats=None, error='RecursionError', work=work[0])
     except Exception as ex:     # generator failures are C18's subject; counted, not judged here
-        return dict(violations=[], stats=None, error='%s: %s' % (type(ex).__name__, str(ex)[:100]))
+        return dict(violations=[], stats=None, error='%s: %s' % (type(ex).__name__, str(ex)[:100]), work=work[0])
     v, stats = check_program(e, prog, lang, combo)
-    return dict(violations=vio + v, stats=stats, error=None)
+    return dict(violations=vio + v, stats=stats, error=None, work=work[0])
 
 
 def cli_cfg_violations(e, combo):
@@ -483,9 +509,9 @@ def _job(job):
 
 TIERS = {
     # base seeds, extra seeds from VERIF_SEED, cli seeds, cli languages per combination,
-    # cpu budget per generation (s), wall deadline (s)
-    'quick': (BASE_SEEDS[:12], 1, [1], 1, 4, 45),
-    'thorough': (BASE_SEEDS, 20, [1, 2, 3], 4, 25, 780),
+    # budget per generation (objects deep-copied, cpu seconds as safety net), wall deadline (s)
+    'quick': (BASE_SEEDS[:8], 1, [1], 1, (60000, 30), 40),
+    'thorough': (BASE_SEEDS, 6, [1, 2, 3], 4, (400000, 240), 780),
 }
 
 
@@ -495,7 +521,8 @@ def plan(tier, seed):
     keys = [combo_key(c) for c in COMBOS]
     base, extra, cli_seeds, cli_langs, budget, deadline = TIERS['quick' if tier == 'quick' else 'thorough']
     deadline = float(os.environ.get('C17_DEADLINE', deadline))      # experiments only; the tiers fix the defaults
-    budget = float(os.environ.get('C17_BUDGET', budget))
+    if os.environ.get('C17_BUDGET'):
+        budget = (int(os.environ['C17_BUDGET']), 100000)
     seeds = list(base)
     while len(seeds) < len(base) + extra:
         s = rnd.randrange(1000, 10 ** 6)
@@ -507,36 +534,44 @@ def plan(tier, seed):
         for n, k in enumerate(keys):
             for j in range(cli_langs):
                 jobs.append((LANGS[(n + n // 4 + j) % 4], s, k, True))
-    if tier == 'quick':
-        # covering design: every (seed, language) gets 4 of the 16 combinations, one from each group of use-site
-        # settings; the 4 languages of one seed cover all 16, and 4 consecutive seeds cover all 64 (language,
-        # combination) pairs -- more distinct seeds for the same number of generations
-        for si, s in enumerate(seeds):
-            for li, lang in enumerate(LANGS):
-                for n, k in enumerate(keys):
-                    if (n + n // 4 + li + si) % 4 == 0:
-                        jobs.append((lang, s, k, False))
-    else:
-        for s in seeds:
-            for k in sorted(keys, key=lambda x: -x.count('1')):
-                for lang in LANGS:
+    # covering design: every (seed, language) gets 4 of the 16 combinations, one from each group of use-site
+    # settings; the 4 languages of one seed cover all 16, and 4 consecutive seeds cover all 64 (language,
+    # combination) pairs.  quick stops here (more distinct seeds for the same number of generations); thorough
+    # continues with the remaining 12 combinations of every (seed, language), i.e. the full product -- the
+    # covering part comes first so that a run cut by the deadline has seen every seed
+    rest = []
+    for si, s in enumerate(seeds):
+        for li, lang in enumerate(LANGS):
+            for n, k in enumerate(keys):
+                if (n + n // 4 + li + si) % 4 == 0:
                     jobs.append((lang, s, k, False))
+                else:
+                    rest.append((lang, s, k, False))
+    if tier != 'quick':
+        jobs += rest
     jobs = [(i,) + j + (budget,) for i, j in enumerate(jobs)]
     desc = ('%d generator seeds (fixed %d..%d + %d from VERIF_SEED) x 4 languages x %s with the '
             'configuration set directly, plus seeds %s x 16 combinations x %d language(s) through a re-import of '
-            'src.args with the command-line switches (= %d generations; each abandoned after %g s CPU, the run stops '
+            'src.args with the command-line switches (= %d generations; each abandoned after %d deep-copied objects, the run stops '
             'scheduling after %g s wall)'
             % (len(seeds), base[0], base[-1], extra,
                '4 of the 16 switch combinations per (seed, language) in a covering design (all 64 (language, '
                'combination) pairs every 4 seeds)' if tier == 'quick' else '16 switch combinations',
-               cli_seeds, cli_langs, len(jobs), budget, deadline))
+               cli_seeds, cli_langs, len(jobs), budget[0], deadline))
     return jobs, desc, deadline
 
 
-def run(tier, seed, stop_first=False, workers=None, stop_prefix='bounded[', stop_function=None):
+def run(tier, seed, stop_first=False, workers=None, stop_prefix='bounded[', stop_function=None, only=None,
+        deadline=None):
+    """the bounded run of one tier.  stop_first / stop_prefix / stop_function / only / deadline serve the replay
+    search: stop at the first violation whose check name starts with stop_prefix (and whose offending object was
+    built by stop_function), looking only at the generations selected by only(language, seed, switches, via_cli)"""
     t0 = time.time()
-    jobs, desc, deadline = plan(tier, seed)
-    workers = workers or int(os.environ.get('C17_WORKERS', '0')) or min(8 if tier == 'quick' else 16, os.cpu_count() or 1)
+    jobs, desc, dl = plan(tier, seed)
+    deadline = deadline or dl
+    if only:
+        jobs = [j for j in jobs if only(j[1], j[2], j[3], j[4])]
+    workers = workers or int(os.environ.get('C17_WORKERS', '0')) or min(6 if tier == 'quick' else 8, os.cpu_count() or 1)
     _ENV['e'] = load()          # before the fork: the workers inherit the loaded tree
     results = []
     cut = False
@@ -548,7 +583,15 @@ def run(tier, seed, stop_first=False, workers=None, stop_prefix='bounded[', stop
         import multiprocessing as mp
         pool = mp.get_context('fork').Pool(workers)
         try:
-            for r in pool.imap_unordered(_job, jobs, chunksize=1):
+            it = pool.imap_unordered(_job, jobs, chunksize=1)
+            while True:
+                try:
+                    r = it.next(timeout=max(0.05, deadline - (time.time() - t0)))
+                except StopIteration:
+                    break
+                except mp.TimeoutError:
+                    cut = True
+                    break
                 results.append(r)
                 if stop_first and hit(r):
                     break
@@ -614,7 +657,8 @@ def run(tier, seed, stop_first=False, workers=None, stop_prefix='bounded[', stop
             'occurrences; generator exceptions / abandoned generations are counted (C18) and not judged')
     return dict(evaluations=evaluations, distinct_nontrivial=len(distinct), rule=rule, samples=samples,
                 violations=violations, planned=len(jobs), not_run_deadline=(len(jobs) - len(results)) if cut else 0,
-                generator_failures=failures, met=totals, cpu_seconds=round(sum(r[5].get('cpu', 0) for r in results), 1), exhaustive=False, workers=workers,
+                generator_failures=failures, met=totals, objects_copied=sum(r[5].get('work', 0) for r in results),
+                cpu_seconds=round(sum(r[5].get('cpu', 0) for r in results), 1), exhaustive=False, workers=workers,
                 seconds=round(time.time() - t0, 1))
 
 
@@ -634,3 +678,10 @@ def replay(fi, verbose=True):
             print('%s seed %s switches %s: %s at %s: %s [%s]' % (fi['language'], fi['seed'], fi['switches'],
                                                                 check_name(v), v['path'], v['detail'], v['type']))
     return not same if fi.get('check') else not r['violations']
+
+
+if __name__ == '__main__':
+    import json
+    _t = sys.argv[1] if len(sys.argv) > 1 else 'quick'
+    _s = int(sys.argv[2]) if len(sys.argv) > 2 else int(os.environ.get('VERIF_SEED', '0'))
+    print(json.dumps(run(_t, _s), indent=1, default=str))
